@@ -24,8 +24,9 @@
   breach): no module name is blacklisted except the empty string (`is_in_import_blacklist("")`),
   nothing is classified pip/stdlib, every located origin lies below search root 0 and is one of
   `Proj.files`, every file parses, `--follow-imports` is the default (local modules); symbolic links
-  below the root (`Proj.phys`) point outside every search root and no two of them lead to one file
-  (the star-expansion's `seen` set, keyed by resolved origin, is then keyed by the spelled path).
+  below the root (`Proj.phys`; they matter to `runBefore_58a9012` only) point outside every search root
+  and no two of them lead to one file (the star-expansion's `seen` set, keyed by resolved origin, is
+  then keyed by the spelled path).
 
   Every `raise` / `error.fatal` reachable in the fragment is an explicit outcome (`Stop`).
 -/
@@ -103,15 +104,20 @@ false`), `spec.origin` of a followed import (`abs := true`: `find_module_in_path
 directory only, Locator.`originAbs … .searchDir`) -/
 def curOf (abs : Bool) (f : File) : Cur := { abs := abs, dir := f.dir, stem := f.stem }
 
-/-- `starred.origin` = `Import.origin` = `Path(module_spec.origin).resolve()`: the fully resolved
-path, which is the origin itself unless a link lies below the search root -/
-def starCur (P : Proj) (g : File) : Cur := (Dict.get? P.phys g.path).getD (curOf true g)
+/-- what `Context.expand_starred_imports` enters for a star-imported file: a parameter of the walk
+(`runWith`).  The current code (58a9012) enters `Path(starred.module_spec.origin)`, the origin as
+located — `curOf true`, like a followed import; before, `starred.origin` = `Import.origin` =
+`Path(module_spec.origin).resolve()`, the fully resolved path (`starCurResolved`). -/
+abbrev StarCur := File → Cur
 
-/-- no star-imported file is reached through a link below its search root -/
-def LinkFree (P : Proj) : Prop := ∀ g, starCur P g = curOf true g
+/-- before 58a9012: the fully resolved path, which is the origin itself unless a link lies below the
+search root (`Proj.phys`) -/
+def starCurResolved (P : Proj) : StarCur := fun g => (Dict.get? P.phys g.path).getD (curOf true g)
 
-theorem linkFree_of_phys_nil (P : Proj) (h : P.phys = []) : LinkFree P := by
-  intro g; simp [starCur, h, Dict.get?]
+/-- the star-expansion enters the file as spelled below the search root -/
+def Spelled (sc : StarCur) : Prop := ∀ g, (sc g).path = g.path ∧ (sc g).stem = g.stem
+
+theorem spelled_curOf : Spelled (curOf true) := fun _ => ⟨rfl, rfl⟩
 
 def fileAt (P : Proj) (p : Path) : Option File := P.files.find? (fun f => f.path == p)
 
@@ -356,7 +362,7 @@ def codeIsIdentifier (qual : Dotted) : Bool :=
   | _ => false
 
 /-- the `for starred in queue` loop (the queue grows while it is iterated) -/
-def expandLoop (P : Proj) : Nat → List Sym → List Path → Tab → St → Out Tab
+def expandLoop (P : Proj) (sc : StarCur) : Nat → List Sym → List Path → Tab → St → Out Tab
   | 0, [], _, t, s => .ok t s
   | 0, _ :: _, _, _, s => .stop .fuel s
   | _ + 1, [], _, t, s => .ok t s
@@ -364,18 +370,18 @@ def expandLoop (P : Proj) : Nat → List Sym → List Path → Tab → St → Ou
     match originOf P sd.qual with
     | .none =>
       if codeIsIdentifier sd.qual then
-        expandLoop P fuel q seen t (s.diag .error "unresolved-while-expanding" (some sd.line))
+        expandLoop P sc fuel q seen t (s.diag .error "unresolved-while-expanding" (some sd.line))
       else .stop (.crash "ValueError:not-an-identifier") s
     | .outside => .stop (.outside "starred origin") s
     | .file g =>
-      if seen.contains g.path then expandLoop P fuel q seen t s
+      if seen.contains g.path then expandLoop P sc fuel q seen t s
       else
-        (enter (starCur P g) (compileRoot P g) s).bind fun t' s =>
+        (enter (sc g) (compileRoot P g) s).bind fun t' s =>
           let seen := g.path :: seen
-          expandLoop P fuel (q ++ starredImports P t' seen) seen (addCopies sd t'.syms t) s
+          expandLoop P sc fuel (q ++ starredImports P t' seen) seen (addCopies sd t'.syms t) s
 
-def expand (P : Proj) (fuel : Nat) (t : Tab) (s : St) : Out Tab :=
-  expandLoop P fuel (starredImports P t []) [] t s
+def expand (P : Proj) (sc : StarCur) (fuel : Nat) (t : Tab) (s : St) : Out Tab :=
+  expandLoop P sc fuel (starredImports P t []) [] t s
 
 /-! ### `parse_and_analyse_imports` -/
 
@@ -383,31 +389,39 @@ abbrev Irs := Dict Dotted Tab
 
 /-- the BFS over the `Import` symbols (default follow level: local modules; nothing in the fragment
 is blacklisted / pip / stdlib) -/
-def followLoop (P : Proj) (xfuel : Nat) : Nat → List Sym → List Path → Irs → St → Out Irs
+def followLoop (P : Proj) (sc : StarCur) (xfuel : Nat) : Nat → List Sym → List Path → Irs → St → Out Irs
   | 0, [], _, irs, s => .ok irs s
   | 0, _ :: _, _, _, s => .stop .fuel s
   | _ + 1, [], _, irs, s => .ok irs s
   | fuel + 1, i :: q, seen, irs, s =>
     match findModuleNameAndSpec P.env i.qual with
-    | none => followLoop P xfuel fuel q seen irs (s.diag .error "unresolved-import" none)
+    | none => followLoop P sc xfuel fuel q seen irs (s.diag .error "unresolved-import" none)
     | some (name, sp) =>
       match sp.origin with
-      | none => followLoop P xfuel fuel q seen irs (s.diag .error "unresolved-import" none)
+      | none => followLoop P sc xfuel fuel q seen irs (s.diag .error "unresolved-import" none)
       | some (.file 0 p) =>
-        if seen.contains p then followLoop P xfuel fuel q seen irs s
+        if seen.contains p then followLoop P sc xfuel fuel q seen irs s
         else
           match fileAt P p with
           | none => .stop (.outside "followed origin") s
           | some g =>
-            (enter (curOf true g) (fun s => (compileRoot P g s).bind fun t s => expand P xfuel t s) s).bind
-              fun t s => followLoop P xfuel fuel (q ++ t.imports) (p :: seen) (Dict.set irs name t) s
+            (enter (curOf true g) (fun s => (compileRoot P g s).bind fun t s => expand P sc xfuel t s) s).bind
+              fun t s => followLoop P sc xfuel fuel (q ++ t.imports) (p :: seen) (Dict.set irs name t) s
       | some _ => .stop (.outside "followed origin") s
 
-/-- `parse_and_analyse_file()` for the target `tgt` (as spelt on the command line: relative) -/
-def run (P : Proj) (fuel : Nat) (tgt : File) : Out (Tab × Irs) :=
+/-- `parse_and_analyse_file()` for the target `tgt` (as spelt on the command line: relative), with
+the star-expansion entering `sc g` for a star-imported file `g` -/
+def runWith (P : Proj) (sc : StarCur) (fuel : Nat) (tgt : File) : Out (Tab × Irs) :=
   enter (curOf false tgt)
-    (fun s => (compileRoot P tgt s).bind fun t s => (expand P fuel t s).bind fun t s =>
-      (followLoop P fuel fuel t.imports [] [] s).bind fun irs s => .ok (t, irs) s)
+    (fun s => (compileRoot P tgt s).bind fun t s => (expand P sc fuel t s).bind fun t s =>
+      (followLoop P sc fuel fuel t.imports [] [] s).bind fun irs s => .ok (t, irs) s)
     {}
+
+/-- the current code: the star-expansion enters the origin as located (Tie A `tieA_resolve_site`) -/
+def run (P : Proj) (fuel : Nat) (tgt : File) : Out (Tab × Irs) := runWith P (curOf true) fuel tgt
+
+/-- the code before 58a9012: the star-expansion enters the fully resolved path -/
+def runBefore_58a9012 (P : Proj) (fuel : Nat) (tgt : File) : Out (Tab × Irs) :=
+  runWith P (starCurResolved P) fuel tgt
 
 end Rattr.Walk
